@@ -235,6 +235,9 @@ scratch worktree selected through `VERIF_REPO`); the tables list the final state
 **Changes that must not be flagged.** 18 behaviour-preserving refactorings (B1-1 .. B6-3, three per group of source
 files, written by six further sub-agents with a differential test each) were run against all 20 quick checks. One false
 alarm was found (B4-3 on C17: the block-reader verdict depended on the wording of an error message; corrected, section 9).
+After the generator additions of the ninth batch the checks that changed (C02, C04, C06, C16-C20) were re-run on the
+refactorings of the code they exercise (34 runs, all silent: `seeded/benign_results/rerun_ninth_batch.txt`; B2-1 was rebased
+onto `91b8933` first).
 %s
 
 **Independent review of the `fix:` commits.** Two further sub-agents reviewed the 36 repairs made so far against the 20
